@@ -387,3 +387,225 @@ Proof.
   destruct (parts_gram _ Hp) as (tds & Hf & Hd & Hl & Hh). rewrite map_length in Hl. rewrite <- Hl.
   exact (recognise_file [] None [] tds cfrag_nil I (Forall_nil _) _ Hf Hd Hh).
 Qed.
+
+(* ------------------------------------------------------------------ computable sufficient conditions *)
+(* the dot-separated segments of a text *)
+Fixpoint split_dot (s : str) : list str :=
+  match s with
+  | [] => [[]]
+  | c :: r => if c =? 46 then [] :: split_dot r
+              else match split_dot r with x :: l => (c :: x) :: l | [] => [[c]] end
+  end.
+
+Lemma split_dot_ne s : split_dot s <> [].
+Proof. destruct s as [|c r]; cbn [split_dot]; [discriminate|]. destruct (c =? 46); [discriminate|]. destruct (split_dot r); discriminate. Qed.
+
+Lemma join_split_dot s : join [46] (split_dot s) = s.
+Proof.
+  induction s as [|c r IH]; [reflexivity|]. cbn [split_dot]. pose proof (split_dot_ne r) as Hne.
+  destruct (c =? 46) eqn:E.
+  - destruct (split_dot r) as [|x l] eqn:Es; [congruence|].
+    change (join [46] ([] :: x :: l)) with ([46] ++ join [46] (x :: l)). rewrite IH. cbn [app]. f_equal. lia.
+  - destruct (split_dot r) as [|x l] eqn:Es; [congruence|]. rewrite <- IH. destruct l as [|y l]; reflexivity.
+Qed.
+
+Definition c10_ktg_cfg_simple (cfg : kt_config) : bool :=
+  forallb (fun kv => c10k_ident_ok (snd kv)) (kt_type_mappings cfg) &&
+  (match kt_prefix cfg with [] => true | p => c10k_ident_ok p end) &&
+  (match kt_package cfg with [] => true | p => forallb c10k_ident_ok (split_dot p) end).
+Definition c10_ktg_field_simple (f : rfield) : bool :=
+  c10k_ident_ok (kt_remove_dash_from_identifier (renamed (fid f))) &&
+  match type_override f Kotlin with Some o => c10k_ident_ok o | None => true end.
+Definition c10_ktg_variant_simple (v : rvariant) : bool :=
+  match v with VAnon fs _ => forallb c10_ktg_field_simple fs | _ => true end.
+Definition c10_ktg_item_simple (it : ritem) : bool :=
+  match it with
+  | ItStruct s => forallb c10_ktg_field_simple (sfields s)
+  | ItEnum (EUnit sh) => forallb c10_ktg_variant_simple (evariants sh)
+  | ItEnum (EAlgebraic tag content sh) =>
+    c10k_ident_ok content &&
+    forallb (fun v => match to_pascal_case (original (vid (variant_shared v))) with [] => false | _ => true end && c10_ktg_variant_simple v) (evariants sh)
+  | _ => true
+  end.
+Definition c10_ktg_dom_simple (pd : parsed) : bool := forallb c10_ktg_item_simple (items_of pd).
+
+Lemma cfg_simple_ok cfg : c10_ktg_cfg_simple cfg = true -> c10_ktg_cfg_ok cfg.
+Proof.
+  unfold c10_ktg_cfg_simple, c10_ktg_cfg_ok. rewrite !andb_true_iff. intros [[Hm Hp] Hk]. split; [|split].
+  - apply Proofs.C10Lex.forallb_Forall in Hm. revert Hm. apply Forall_impl. intros kv Hkv. apply tytext_ident, Hkv.
+  - destruct (kt_prefix cfg); [left; reflexivity|right; exact Hp].
+  - destruct (kt_package cfg) as [|c r]; [left; reflexivity|right]. exists (split_dot (c :: r)).
+    split; [apply split_dot_ne|]. split; [symmetry; apply join_split_dot|exact Hk].
+Qed.
+Lemma field_simple_ok f : c10_ktg_field_simple f = true -> c10_ktg_field_ok f.
+Proof.
+  unfold c10_ktg_field_simple, c10_ktg_field_ok. rewrite andb_true_iff. intros [Hk Ho]. split; [exact Hk|].
+  intros o E. rewrite E in Ho. apply tytext_ident, Ho.
+Qed.
+Lemma variant_simple_ok v : c10_ktg_variant_simple v = true -> c10_ktg_variant_dom v.
+Proof.
+  destruct v as [vsh | t vsh | fs vsh]; cbn [c10_ktg_variant_simple c10_ktg_variant_dom]; try (intros _; exact I).
+  intros H. apply Proofs.C10Lex.forallb_Forall in H. revert H. apply Forall_impl. apply field_simple_ok.
+Qed.
+Lemma dom_simple_ok pd : c10_ktg_dom_simple pd = true -> c10_ktg_dom pd.
+Proof.
+  unfold c10_ktg_dom_simple, c10_ktg_dom. intros H. apply Proofs.C10Lex.forallb_Forall in H. revert H. apply Forall_impl.
+  intros [s | [sh | tag content sh] | a | c] Hit; cbn [c10_ktg_item_simple c10_ktg_item_ok] in *; try exact I.
+  - apply Proofs.C10Lex.forallb_Forall in Hit. revert Hit. apply Forall_impl. apply field_simple_ok.
+  - apply Proofs.C10Lex.forallb_Forall in Hit. revert Hit. apply Forall_impl. apply variant_simple_ok.
+  - apply andb_true_iff in Hit as [Hc Hvs]. split; [exact Hc|].
+    apply Proofs.C10Lex.forallb_Forall in Hvs. revert Hvs. apply Forall_impl. intros v Hv. apply andb_true_iff in Hv as [Hp Hv].
+    split; [|apply variant_simple_ok, Hv]. destruct (to_pascal_case (original (vid (variant_shared v)))); [discriminate|discriminate].
+Qed.
+
+Theorem kt_generate_recognised_simple uc cfg pd text :
+  Proofs.C10_KT.c10_kt_cfg_ok cfg = true -> c10_ktg_cfg_simple cfg = true -> dom_C10 CKT pd = true -> c10_ktg_dom_simple pd = true ->
+  kt_generate uc cfg pd = Ok text -> exists n, c10_kt_recognise text = Some n /\ (List.length (items_of pd) <= n)%nat.
+Proof. intros Hcfg Gcfg Hdom Gdom. apply kt_generate_recognised; auto using cfg_simple_ok, dom_simple_ok. Qed.
+
+(* ------------------------------------------------------------------ non-vacuity *)
+Definition kg_id (s : string) : id := {| original := lit s; renamed := lit s; via_serde_rename := false |}.
+Definition kg_field (name : string) (ty : rtype) : rfield :=
+  {| fid := kg_id name; fty := ty; fcomments := [lit "a doc line with ""quotes"", a star * and a slash /"]; has_default := false; fdecs := [] |}.
+Definition kg_struct : rstruct :=
+  {| sid := kg_id "Person"; sgenerics := [lit "T"; lit "U"];
+     sfields := [kg_field "name" (RPrim PString);
+                 kg_field "age" (ROption (RPrim PU32));
+                 kg_field "tags" (RVec (RSimple (lit "T")));
+                 kg_field "home" (RSimple (lit "Url"));
+                 kg_field "index" (RHashMap (RPrim PString) (RGeneric (lit "Box") [RSimple (lit "U"); RVec (RPrim PBool)]));
+                 {| fid := {| original := lit "first_name"; renamed := lit "first-name"; via_serde_rename := true |}; fty := ROption (ROption (RPrim PString));
+                    fcomments := []; has_default := true; fdecs := [] |};
+                 {| fid := kg_id "count"; fty := RPrim PU8; fcomments := []; has_default := true; fdecs := [] |};
+                 {| fid := kg_id "raw"; fty := RPrim PString; fcomments := [lit "one"; lit "two"]; has_default := false;
+                    fdecs := [(Kotlin, [DNameValue (lit "type") (lit "Map<String, List<Int>?>")])] |}];
+     scomments := [lit "first line"; lit "second line"]; sdecs := []; sredacted := true |}.
+Definition kg_empty : rstruct :=
+  {| sid := kg_id "Empty"; sgenerics := []; sfields := []; scomments := [lit "no fields"]; sdecs := []; sredacted := false |}.
+Definition kg_alias : ralias :=
+  {| aid := kg_id "Al"; agenerics := [lit "T"]; atype := ROption (RVec (RSimple (lit "T"))); acomments := [lit "an alias"]; adecs := []; aredacted := false |}.
+Definition kg_inline : ralias :=
+  {| aid := kg_id "Secret"; agenerics := []; atype := RPrim PString; acomments := []; adecs := [(DKKotlin, [lit "JvmInline"])]; aredacted := true |}.
+Definition kg_unit_enum : renum :=
+  EUnit {| eid := kg_id "Color"; egenerics := []; ecomments := [];
+           evariants := [VUnit {| vid := kg_id "Red"; vcomments := [lit "the red one"] |};
+                         VUnit {| vid := {| original := lit "DarkBlue"; renamed := lit "dark-blue"; via_serde_rename := true |}; vcomments := [] |}];
+           edecs := []; erecursive := false; eredacted := false |}.
+Definition kg_enum : renum :=
+  EAlgebraic (lit "type") (lit "content")
+    {| eid := kg_id "E"; egenerics := [lit "T"]; ecomments := [lit "an enum"];
+       evariants := [VUnit {| vid := kg_id "U"; vcomments := [] |};
+                     VTuple (RHashMap (RPrim PString) (ROption (RSimple (lit "T")))) {| vid := kg_id "Tup"; vcomments := [lit "doc"] |};
+                     VTuple (RPrim PI32) {| vid := kg_id "_9lives"; vcomments := [] |};
+                     VAnon [{| fid := {| original := lit "inner"; renamed := lit "in-ner"; via_serde_rename := true |}; fty := RSimple (lit "T"); fcomments := []; has_default := false; fdecs := [] |};
+                            kg_field "when" (RPrim PI64)] {| vid := kg_id "S"; vcomments := [] |}];
+       edecs := []; erecursive := false; eredacted := false |}.
+Definition kg_prog : parsed :=
+  {| p_structs := [kg_struct; kg_empty]; p_enums := [kg_unit_enum; kg_enum]; p_aliases := [kg_alias; kg_inline];
+     p_consts := []; p_type_names := []; p_errors := []; p_imports := [] |}.
+Definition kg_cfg : kt_config :=
+  {| kt_package := lit "com.agilebits.onepassword"; kt_module_name := lit "m"; kt_prefix := lit "OP";
+     kt_type_mappings := [(lit "Url", lit "java.net.URI")]; kt_no_version_header := false; kt_version := lit "1.46.0" |}.
+
+Definition kg_text : str := match kt_generate uc_exec kg_cfg kg_prog with Ok t => t | _ => [] end.
+
+(* mutilations: the text without its last three characters; without its first opening parenthesis; with its first [=] turned
+   into [:]; with its first comma removed *)
+Fixpoint kg_drop_first (c : char) (s : str) : str :=
+  match s with [] => [] | x :: r => if x =? c then r else x :: kg_drop_first c r end.
+Fixpoint kg_subst_first (c d : char) (s : str) : str :=
+  match s with [] => [] | x :: r => if x =? c then d :: r else x :: kg_subst_first c d r end.
+
+Lemma kg_mapping_tytext : TyText (lit "java.net.URI").
+Proof.
+  exists [KIdent (lit "java"); KP 46; KIdent (lit "net"); KP 46; KIdent (lit "URI")]. split; [apply frag_compute; vm_compute; reflexivity|].
+  apply gr_ty_user. apply (G_udot [KIdent (lit "java")] [KIdent (lit "net"); KP 46; KIdent (lit "URI")]); [apply G_s1|].
+  apply (G_udot [KIdent (lit "net")] [KIdent (lit "URI")]); [apply G_s1|apply G_u1, G_s1].
+Qed.
+
+Lemma kg_override_tytext : TyText (lit "Map<String, List<Int>?>").
+Proof.
+  change (lit "Map<String, List<Int>?>")
+    with (lit "Map" ++ lit "<" ++ join (lit ", ") [lit "String"; (lit "List" ++ lit "<" ++ join (lit ", ") [lit "Int"] ++ lit ">") ++ lit "?"] ++ lit ">").
+  apply tytext_app; [reflexivity|apply tytext_ident; reflexivity|]. constructor; [|constructor].
+  apply tytext_quest. apply tytext_app; [reflexivity|apply tytext_ident; reflexivity|constructor].
+Qed.
+
+Example C10_kt_grammar_nonvacuous :
+  Proofs.C10_KT.c10_kt_cfg_ok kg_cfg = true /\ c10_ktg_cfg_ok kg_cfg /\
+  dom_C10 CKT kg_prog = true /\ c10_ktg_dom kg_prog /\ known_C10 CKT [] kg_prog = [] /\
+  kt_generate uc_exec kg_cfg kg_prog = Ok kg_text /\
+  c10_kt_recognise kg_text = Some 7%nat /\
+  contains_sub (lit "data class OPPerson<T, U> (") kg_text = true /\
+  contains_sub (lit "val first_name: String?? = null,") kg_text = true /\
+  contains_sub (lit "val count: UByte? = null,") kg_text = true /\
+  contains_sub (lit "val raw: Map<String, List<Int>?>") kg_text = true /\
+  contains_sub (lit "val index: HashMap<String, OPBox<U, List<Boolean>>>,") kg_text = true /\
+  contains_sub (lit "val home: java.net.URI,") kg_text = true /\
+  contains_sub (lit "override fun toString(): String = ""Person""") kg_text = true /\
+  contains_sub (lit "object OPEmpty") kg_text = true /\
+  contains_sub (lit "typealias OPAl<T> = List<T>?") kg_text = true /\
+  contains_sub (lit "value class OPSecret(") kg_text = true /\
+  contains_sub (lit "fun unwrap() = value") kg_text = true /\
+  contains_sub (lit "enum class OPColor(val string: String) {") kg_text = true /\
+  contains_sub (lit "DarkBlue(""dark-blue""),") kg_text = true /\
+  contains_sub (lit "sealed class OPE<T> {") kg_text = true /\
+  contains_sub (lit "object U: OPE<T>()") kg_text = true /\
+  contains_sub (lit "data class Tup<T>(val content: HashMap<String, T?>): OPE<T>()") kg_text = true /\
+  contains_sub (lit "data class _9lives<T>(val content: Int): OPE<T>()") kg_text = true /\
+  contains_sub (lit "data class S<T>(val content: OPESInner<T>): OPE<T>()") kg_text = true /\
+  c10_kt_recognise (firstn (List.length kg_text - 3) kg_text) = None /\
+  c10_kt_recognise (kg_drop_first 40 kg_text) = None /\
+  c10_kt_recognise (kg_subst_first 61 58 kg_text) = None /\
+  c10_kt_recognise (kg_drop_first 44 kg_text) = None /\
+  c10_kt_recognise (lit "@Serializable" ++ nl ++ lit "object Tag" ++ nl) = Some 1%nat /\
+  c10_kt_recognise (lit "@Serializable" ++ nl ++ lit "object Tag<T>" ++ nl) = None /\
+  c10_kt_recognise (lit "@Serializable" ++ nl ++ lit "object Tag(val x: Int)" ++ nl) = None /\
+  c10_kt_recognise (lit "typealias A<> = Int" ++ nl) = None /\
+  c10_kt_recognise (lit "typealias A Int" ++ nl) = None /\
+  c10_kt_recognise (lit "@Serializable" ++ nl ++ lit "data class A(val x)" ++ nl) = None /\
+  c10_kt_recognise (lit "@Serializable" ++ nl ++ lit "data class (val x: Int)" ++ nl) = None /\
+  c10_kt_recognise (lit "@SerialName(""a) object A" ++ nl) = None.
+Proof.
+  split; [vm_compute; reflexivity|]. split.
+  { split; [repeat constructor; exact kg_mapping_tytext|]. split; [right; reflexivity|]. right.
+    exists [lit "com"; lit "agilebits"; lit "onepassword"]. split; [discriminate|]. split; reflexivity. }
+  split; [vm_compute; reflexivity|]. split.
+  { assert (Hf : forall f, c10k_ident_ok (kt_remove_dash_from_identifier (renamed (fid f))) = true -> type_override f Kotlin = None -> c10_ktg_field_ok f).
+    { intros f Hk Hn. split; [exact Hk|]. intros o E. rewrite Hn in E. discriminate. }
+    assert (Hraw : forall f, c10k_ident_ok (kt_remove_dash_from_identifier (renamed (fid f))) = true ->
+                     type_override f Kotlin = Some (lit "Map<String, List<Int>?>") -> c10_ktg_field_ok f).
+    { intros f Hk Hn. split; [exact Hk|]. intros o E. rewrite Hn in E. injection E as <-. exact kg_override_tytext. }
+    unfold c10_ktg_dom. cbn [items_of kg_prog p_aliases p_structs p_enums p_consts map app].
+    repeat (apply Forall_cons); try apply Forall_nil; try exact I;
+      try (apply Hf; vm_compute; reflexivity); try (apply Hraw; vm_compute; reflexivity).
+    split; [reflexivity|].
+    repeat (apply Forall_cons); try apply Forall_nil; try (split; [vm_compute; discriminate|exact I]).
+    split; [vm_compute; discriminate|]. cbn [c10_ktg_variant_dom].
+    repeat (apply Forall_cons); try apply Forall_nil; try (apply Hf; vm_compute; reflexivity). }
+  repeat split; vm_compute; reflexivity.
+Qed.
+
+(* the witness, in the form stated in Props/C10.v *)
+Lemma kt_grammar_witness :
+  Proofs.C10_KT.c10_kt_cfg_ok kg_cfg = true /\ c10_ktg_cfg_ok kg_cfg /\ dom_C10 CKT kg_prog = true /\ c10_ktg_dom kg_prog /\
+  known_C10 CKT [] kg_prog = [] /\
+  kt_generate uc_exec kg_cfg kg_prog = Ok kg_text /\ c10_kt_recognise kg_text = Some 7%nat /\
+  contains_sub (lit "data class OPPerson<T, U> (") kg_text = true /\
+  contains_sub (lit "val first_name: String?? = null,") kg_text = true /\
+  contains_sub (lit "typealias OPAl<T> = List<T>?") kg_text = true /\
+  contains_sub (lit "enum class OPColor(val string: String) {") kg_text = true /\
+  contains_sub (lit "data class S<T>(val content: OPESInner<T>): OPE<T>()") kg_text = true /\
+  c10_kt_recognise (firstn (List.length kg_text - 3) kg_text) = None /\
+  c10_kt_recognise (kg_drop_first 40 kg_text) = None /\
+  c10_kt_recognise (kg_subst_first 61 58 kg_text) = None /\
+  c10_kt_recognise (kg_drop_first 44 kg_text) = None /\
+  c10_kt_recognise (lit "@Serializable" ++ nl ++ lit "object Tag" ++ nl) = Some 1%nat /\
+  c10_kt_recognise (lit "@Serializable" ++ nl ++ lit "object Tag<T>" ++ nl) = None /\
+  c10_kt_recognise (lit "@Serializable" ++ nl ++ lit "object Tag(val x: Int)" ++ nl) = None /\
+  c10_kt_recognise (lit "typealias A<> = Int" ++ nl) = None /\
+  c10_kt_recognise (lit "typealias A Int" ++ nl) = None /\
+  c10_kt_recognise (lit "@Serializable" ++ nl ++ lit "data class A(val x)" ++ nl) = None /\
+  c10_kt_recognise (lit "@Serializable" ++ nl ++ lit "data class (val x: Int)" ++ nl) = None /\
+  c10_kt_recognise (lit "@SerialName(""a) object A" ++ nl) = None.
+Proof. pose proof C10_kt_grammar_nonvacuous as H. tauto. Qed.
